@@ -185,6 +185,11 @@ func (c *ClientOptions) handleCallback() func(context.Context, *jmessage) []byte
 		if err != nil {
 			rsp.R = nil
 			if e, ok := err.(*Error); ok {
+				if len(e.Data) != 0 && !json.Valid(e.Data) {
+					// Data that cannot be encoded would leave nothing to send;
+					// report the error without it.
+					e = &Error{Code: e.Code, Message: e.Message}
+				}
 				rsp.E = e
 			} else {
 				rsp.E = &Error{Code: ErrorCode(err), Message: err.Error()}
